@@ -1,4 +1,4 @@
-use super::evaluator_numeric::value_as_f64;
+use super::evaluator_numeric::{compare_int_with_float, compare_numeric_values};
 use super::evaluator_temporal_math::{compare_time_of_day, compare_time_with_offset};
 use super::evaluator_temporal_parse::parse_temporal_string;
 use super::{TemporalValue, Value};
@@ -26,16 +26,16 @@ fn compare_numbers_for_range<F>(left: &Value, right: &Value, cmp: &F) -> Value
 where
     F: Fn(Ordering) -> bool,
 {
-    let (l, r) = match (value_as_f64(left), value_as_f64(right)) {
-        (Some(l), Some(r)) => (l, r),
-        _ => return Value::Null,
-    };
-    if l.is_nan() || r.is_nan() {
-        return Value::Bool(false);
+    if !matches!(left, Value::Int(_) | Value::Float(_))
+        || !matches!(right, Value::Int(_) | Value::Float(_))
+    {
+        return Value::Null;
     }
-    l.partial_cmp(&r)
-        .map(|ord| Value::Bool(cmp(ord)))
-        .unwrap_or(Value::Null)
+    // NaN compares false with everything.
+    match compare_numeric_values(left, right) {
+        Some(ord) => Value::Bool(cmp(ord)),
+        None => Value::Bool(false),
+    }
 }
 
 fn compare_lists_for_range<F>(left: &[Value], right: &[Value], cmp: &F) -> Value
@@ -140,8 +140,15 @@ pub(super) fn order_compare_non_null(left: &Value, right: &Value) -> Option<Orde
         (Value::Bool(l), Value::Bool(r)) => Some(l.cmp(r)),
         (Value::Int(l), Value::Int(r)) => Some(l.cmp(r)),
         (Value::Float(l), Value::Float(r)) => Some(compare_f64_with_nan(*l, *r)),
-        (Value::Int(l), Value::Float(r)) => Some(compare_f64_with_nan(*l as f64, *r)),
-        (Value::Float(l), Value::Int(r)) => Some(compare_f64_with_nan(*l, *r as f64)),
+        // NaN sorts above every number; otherwise compare exactly (no rounding through f64).
+        (Value::Int(l), Value::Float(r)) => {
+            Some(compare_int_with_float(*l, *r).unwrap_or(Ordering::Less))
+        }
+        (Value::Float(l), Value::Int(r)) => Some(
+            compare_int_with_float(*r, *l)
+                .map(Ordering::reverse)
+                .unwrap_or(Ordering::Greater),
+        ),
         (Value::String(l), Value::String(r)) => Some(compare_strings_with_temporal(l, r)),
         _ => {
             let rank_cmp = value_order_rank(left).cmp(&value_order_rank(right));
